@@ -112,6 +112,24 @@ def locale_words():
     return out
 
 
+def _detect_by_text(text, confidence_threshold=None):
+    """a language-detection callback whose answer depends on the text"""
+    low = text.lower()
+    if "janvier" in low or "mars" in low or "hier" in low:
+        return ["fr"]
+    if "januar" in low and "january" not in low:
+        return ["de"]
+    return ["en"]
+
+
+def _detect_const(text, confidence_threshold=None):
+    return ["en"]
+
+
+DETECT = {"by_text": _detect_by_text, "const": _detect_const}
+SHARED = {}          # caller-owned list objects that live across calls and are edited in place between them
+
+
 def main():
     if len(sys.argv) > 1 and sys.argv[1] == "locale-words":
         json.dump(locale_words(), sys.stdout)
@@ -176,10 +194,20 @@ def main():
                 langs = list(a["languages"]) if a.get("languages") else None
                 args_before = (json.dumps(st, sort_keys=True, default=str), list(langs or []))
                 locs = list(a["locales"]) if a.get("locales") else None
-                r = dateparser.parse(a["s"], languages=langs, locales=locs, region=a.get("region"), settings=st)
-                untouched_l = locs == (list(a["locales"]) if a.get("locales") else None)
+                if a.get("locales_ref"):          # the SAME list object as in earlier calls (edited in place by "xedit")
+                    locs = SHARED.setdefault(a["locales_ref"], list(a.get("locales") or []))
+                if a.get("languages_ref"):
+                    langs = SHARED.setdefault(a["languages_ref"], list(a.get("languages") or []))
+                r = dateparser.parse(a["s"], languages=langs, locales=locs, region=a.get("region"), settings=st,
+                                     detect_languages_function=DETECT.get(a.get("detect")))
+                untouched_l = a.get("locales_ref") is not None or locs == (list(a["locales"]) if a.get("locales") else None)
                 conc = norm_dt(r) + ("|off=%s" % r.utcoffset() if r is not None and r.tzinfo is not None else "")
                 untouched = untouched_l and args_before == (json.dumps(st, sort_keys=True, default=str), list(langs or []))
+            elif kind == "xedit":         # ["xedit", name, new content]: the caller edits its own list in place
+                _, name, content = c
+                SHARED.setdefault(name, [])[:] = list(content)
+                conc = "edited"
+                untouched = True
             elif kind == "xsearch":
                 _, a = c
                 st = _dec(a.get("settings"))
